@@ -845,10 +845,27 @@ func cmCaseCID(c *Ctx, r *Rand, emit bool) (key string, viol []cmViol, nontrivia
 		got := f.LookupCID(b)
 		if want, ok := eff[code]; ok && isCode {
 			if got != want {
-				bad("lookup-mapped", fmt.Sprintf("%s: code %x is mapped to %d but LookupCID returns %d", sp.name, b, want, got))
+				// is the code covered by a mapping entry anywhere in the chain?
+				mappedSomewhere := false
+				for g := f; g != nil; g = g.Parent {
+					for _, s := range g.CIDSingles {
+						mappedSomewhere = mappedSomewhere || bytes.Equal(s.Code, b)
+					}
+					for _, rg := range g.CIDRanges {
+						mappedSomewhere = mappedSomewhere || cmInBox(rg.First, rg.Last, b)
+					}
+				}
+				if !mappedSomewhere && got == f.LookupNotdefCID(b) {
+					// SetMapping left the entry out because Parent.LookupCID returned its CID from a
+					// notdef entry (or 0 for "absent"); the file's own notdef entries now answer first
+					bad("setmapping-skip-answered-by-parent-notdef", fmt.Sprintf("%s: code %x is mapped to %d; SetMapping stored nothing for it (the parent answers %d through its notdef entries) and LookupCID returns %d from the file's own notdef entries", sp.name, b, want, want, got))
+				} else {
+					bad("lookup-mapped", fmt.Sprintf("%s: code %x is mapped to %d but LookupCID returns %d", sp.name, b, want, got))
+				}
 			}
 		} else {
-			// not mapped anywhere in the chain: the notdef result (0 when there is none)
+			// not mapped anywhere in the chain: the notdef result, the file's own entries first
+			// (0 when there is none)
 			want := f.LookupNotdefCID(b)
 			if got != want {
 				root := f
@@ -856,7 +873,7 @@ func cmCaseCID(c *Ctx, r *Rand, emit bool) (key string, viol []cmViol, nontrivia
 					root = root.Parent
 				}
 				if got == root.LookupNotdefCID(b) {
-					// LookupCID of a file with a parent never consults the file's own notdef entries
+					// regression detector for D30 (fixed in 5f29395): the file's own notdef entries skipped
 					bad("notdef-child-ignored-with-parent", fmt.Sprintf("%s: %x is not mapped; LookupCID returns %d, LookupNotdefCID gives %d (the file's own notdef entries are skipped because it has a parent)", sp.name, b, got, want))
 				} else {
 					bad("lookup-unmapped", fmt.Sprintf("%s: %x is not mapped; LookupCID returns %d, notdef lookup gives %d", sp.name, b, got, want))
@@ -871,18 +888,10 @@ func cmCaseCID(c *Ctx, r *Rand, emit bool) (key string, viol []cmViol, nontrivia
 		got[code] = v
 		count[code]++
 	}
-	// "Codes which are already correctly set in a parent cmap are not included in the new
-	// mapping" (SetMapping): such a code need not be enumerated by this file; it must then be
-	// answered by the parent chain with the same value
-	notdefHit := func(code charcode.Code, v cid.CID) bool {
-		b := codec.AppendCode(nil, code)
-		for g := f; g != nil; g = g.Parent {
-			if g.Parent != nil && g.Parent.LookupCID(b) == v {
-				return true
-			}
-		}
-		return false
-	}
+	// SetMapping leaves out a code only when a parent has a *mapping* for it with the same CID
+	// (e336336); All enumerates the parents first, so every mapped code is still enumerated.
+	// (Before that fix, codes answered by a parent's notdef entry were dropped and missing here.)
+	notdefHit := func(code charcode.Code, v cid.CID) bool { return false }
 	missing, missingNotdef := 0, 0
 	for code, v := range eff {
 		if g, ok := got[code]; !ok || g != v {
@@ -1415,6 +1424,29 @@ func replayC13(input string) (bool, string) {
 // cmFixed: the D13 witness and relatives, checked on every run.
 func cmFixed(c *Ctx) (viol []cmViol) {
 	bad := func(o, d string) { viol = append(viol, cmViol{o, d}) }
+	// witness of D30b, setmapping-skip-answered-by-parent-notdef (fixed in e336336; see
+	// witness_setMapping in Props/C13cce.lean), replayed on every run as a regression detector
+	func() {
+		defer func() {
+			if p := recover(); p != nil {
+				bad("c13-no-panic", fmt.Sprintf("panic: %v", p))
+			}
+		}()
+		codec, _ := charcode.NewCodec(charcode.Simple)
+		par := &cmap.File{Name: "W-P", NotdefRanges: []cmap.Range{{First: []byte{0}, Last: []byte{0xff}, Value: 2}}}
+		f := &cmap.File{Name: "W-C", Parent: par, NotdefSingles: []cmap.Single{{Code: []byte{0x16}, Value: 7}}}
+		data := map[charcode.Code]cid.CID{0x16: 2}
+		before := cmFileWire(f)
+		f.SetMapping(codec, data)
+		if c != nil {
+			c.Emit("CC setmap "+ccCSRWire(charcode.Simple)+" "+before+" "+cmChainWire(par)+" "+cmDataWire(data), "ok "+cmFileWire(f))
+			c.Emit("CC lookup "+cmChainWire(f)+" 16/17", "ok "+strconv.FormatUint(uint64(f.LookupCID([]byte{0x16})), 10)+"/"+strconv.FormatUint(uint64(f.LookupCID([]byte{0x17})), 10))
+			c.Case("fixed setmapping-witness", true)
+		}
+		if got := f.LookupCID([]byte{0x16}); got != 2 {
+			bad("setmapping-skip-answered-by-parent-notdef", fmt.Sprintf("simple: code 16 is mapped to 2; SetMapping stored nothing for it (the parent answers 2 through its notdef range) and LookupCID returns %d from the file's own notdef entries", got))
+		}
+	}()
 	cases := []map[charcode.Code]string{
 		{0x41: "\ud7ff", 0x42: "\ufffd", 0x43: "\ufffe"},                 // D13
 		{0x41: "\ud7fe", 0x42: "\ud7ff", 0x43: "\ue000"},                 // across the surrogate gap
@@ -1509,6 +1541,8 @@ func cmOracleName(key string) string {
 	switch key {
 	case "notdef-child-ignored-with-parent":
 		return "lookup-unmapped"
+	case "setmapping-skip-answered-by-parent-notdef":
+		return "lookup-mapped"
 	}
 	return key
 }
